@@ -443,6 +443,17 @@ def check_table(m, phase, fe, cfg, report):
                 report("range-not-covered",
                        "%s end: table ends at %.10g, requested %.10g, phase exists there" % (
                            end, tabT, req), dict(end=end))
+    # did the initial findLocalMinimum move away from the user's (perturbed) guess at all?
+    nomove, kink = False, False
+    if cfg.get("guess"):
+        k0 = int(np.argmin(np.abs(T - cfg["Tstart"])))
+        g0 = ph.loc(cfg["Tstart"]) * (1.0 + cfg["guess"])
+        moved = float(np.linalg.norm(tab[k0][:-1] - g0))
+        nomove = moved <= 0.2 * abs(cfg["guess"]) * float(np.linalg.norm(g0))
+        start_err = float(np.linalg.norm(tab[k0][:-1] - ph.loc(cfg["Tstart"])))
+        # a start node that is still off (by no more than the guess was) is a kink in the table
+        kink = (100 * rTol + 1e-5) * fs < start_err <= 2.0 * abs(cfg["guess"]) * float(
+            np.linalg.norm(g0))
     # ---- interpolation ------------------------------------------------------------------
     if mx[0] > mn[0]:
         inner = T[(T >= mn[0]) & (T <= mx[0])]
@@ -450,6 +461,11 @@ def check_table(m, phase, fe, cfg, report):
             # only the part on the branch, five nodes away from the end that left it
             inner = inner[(inner > ph.Tlo) & (inner < ph.Thi)]
             inner = inner[(5 if bad_lo else 0): (len(inner) - 5 if bad_hi else len(inner))]
+            # (and three steps: the spline carries the jump at the hop back into the branch)
+            if bad_lo:
+                inner = inner[inner > ph.Tlo + 3 * dT]
+            if bad_hi:
+                inner = inner[inner < ph.Thi - 3 * dT]
         k0 = np.arange(len(inner) - 1)
         if len(k0) > 40:
             k0 = k0[:: len(k0) // 40]
@@ -493,7 +509,8 @@ def check_table(m, phase, fe, cfg, report):
                        "interpolated fields at T=%.10g are %s, closed form %s: error %.3g > "
                        "%.3g" % (Tm, x.tolist(), exact.tolist(), d, tolx),
                        dict(T=float(Tm), err=d, noise=fd_noise(v, emin),
-                            size=float(np.linalg.norm(exact))))
+                            size=float(np.linalg.norm(exact)),
+                            nomove=nomove or (kink and abs(Tm - cfg["Tstart"]) <= 3 * dT)))
             vex = m.V(exact, Tm)
             # V is stationary at the minimum: error quadratic in the field error
             modelv = max(1e-9, rTol) * abs(vex) + 10 * max(emin, 0.02 * Ts ** 2) * model ** 2 \
@@ -707,16 +724,18 @@ def classify(m, cfg, key, extra=None):
         # the accurate ODE point by the rounding noise of its forward-difference gradient -
         # MEASURED: findLocalMinimum started at the exact minimum moves it by that much
         return "minimiser-noop-in-large-units"
-    if cfg.get("guess") and m.unit >= 100 and "err" in extra and \
-            key in ("gradient-not-zero", "interpolation-error") and \
-            extra["err"] <= (2.0 if key == "gradient-not-zero" else 6.0) * abs(cfg["guess"]) * \
-            guess_growth(m, cfg, extra["size"]):
-        # (interpolation: a start node that keeps the error of the guess while its neighbours
-        # do not is a kink, and the cubic spline overshoots a kink by a few times its height)
-        # (the ODE carries the ABSOLUTE error of the guess at the start along the branch;
-        # 2: the Newton step over-estimates the distance by the anharmonicity)
-        # recorded: in LARGE units scipy's absolute finite-difference step is rounding noise,
-        # findLocalMinimum does not move, the table inherits (at most) the error of the guess
+    if cfg.get("guess") and m.unit >= 100 and "err" in extra and (
+            (key == "gradient-not-zero" and
+             extra["err"] <= 2.0 * abs(cfg["guess"]) * guess_growth(m, cfg, extra["size"])) or
+            (key == "interpolation-error" and
+             (extra["err"] <= 2.0 * abs(cfg["guess"]) * guess_growth(m, cfg, extra["size"])
+              or extra.get("nomove")))):
+        # recorded: in LARGE units scipy's absolute finite-difference step is rounding noise and
+        # findLocalMinimum does not move.  A tabulated point keeps at most the error of the
+        # guess (carried along the branch; 2: the Newton step over-estimates the distance);
+        # a larger interpolation error counts only when it is MEASURED that the start node still
+        # sits on / near the user's guess (a kink in the table, which the spline overshoots
+        # within three steps of the start)
         return "minimiser-noop-in-large-units"
     near = cfg.get("Tstart") is not None and "TMin" in cfg and min(
         abs(cfg["Tstart"] - cfg["TMin"]), abs(cfg["TMax"] - cfg["Tstart"])) <= (
@@ -808,8 +827,8 @@ def run_trace_case(ctx, cfg, tag):
     worst = {}
     if ok:
         n, worst = check_table(m, cfg["phase"], fe, cfg, report)
-        note_hop(ctx, m, cfg, worst)
-        if not cfg.get("guess"):       # (an approximate guess is another error regime)
+        hop_ = note_hop(ctx, m, cfg, worst)
+        if not cfg.get("guess") and not hop_:     # (other error regimes)
             note_worst(ctx, worst, cfg)
         for _ in range(n):
             ctx.count("direct_" + tag)
